@@ -538,3 +538,74 @@ def external_layout_rule(rc, prefixes):
                 rc.fail(f, first, f"{f.qual} re-arranges the axes of `{base}` by assigning {sorted(flds)} but leaves {missing} as they were: variables, cardinality and values are "
                         f"one layout — e.g. the arg-max decoder then reads the permuted table with the old radix", construct=f"{f.qual} partial layout write on {base}: {sorted(flds)}")
     rc.ob(f"layout fields of factor objects written outside pgmpy/factors/: {n_w} object(s) in {n_fn} function(s); every axis re-arrangement updates variables, cardinality and values together")
+
+
+# -------------------------------------------------------------------------------------------------
+# state NAMES vs state NUMBERS
+def state_domain_rule(rc, prefixes):
+    """A state is handed around either by NAME or by NUMBER.  `DiscreteFactor.reduce` and the `evidence` of query / map_query take NAMES and translate
+    them themselves (premise checked: reduce calls get_state_no).  A value that has already been translated (it comes from `name_to_no[...]` or
+    `get_state_no(...)`) and is then passed to such a sink is translated twice: with integer state names that differ from their positions
+    (e.g. [1, 2, 3]) the evidence is silently applied to another state."""
+    repo = rc.repo
+    red = repo.func("pgmpy/factors/discrete/DiscreteFactor.py", "DiscreteFactor.reduce")
+    premise = any(isinstance(n, ast.Call) and call_name(n) == "get_state_no" for n in ast.walk(red.node))
+    rc.ob(f"premise: DiscreteFactor.reduce translates state names to numbers itself: {premise}")
+    if not premise:
+        return
+    n_fn = n_sink = 0
+
+    def is_num_expr(e, nums):
+        for x in ast.walk(e):
+            if isinstance(x, ast.Call) and call_name(x) == "get_state_no":
+                return True
+            if isinstance(x, ast.Attribute) and x.attr == "name_to_no":
+                return True
+            if isinstance(x, ast.Name) and x.id in nums and isinstance(x.ctx, ast.Load):
+                return True
+        return False
+
+    for f in repo.all_functions():
+        if not f.file.startswith(tuple(prefixes)) or f.file.startswith("pgmpy/factors/"):
+            continue
+        n_fn += 1
+        nums: Set[str] = set()
+        changed = True
+        while changed:
+            changed = False
+            for n in ast.walk(f.node):
+                if isinstance(n, ast.Assign) and len(n.targets) == 1 and isinstance(n.targets[0], ast.Name) and n.targets[0].id not in nums:
+                    v = n.value
+                    payload = None
+                    if isinstance(v, ast.DictComp):
+                        payload = v.value
+                    elif isinstance(v, (ast.ListComp, ast.SetComp, ast.GeneratorExp)):
+                        payload = v.elt.elts[1] if isinstance(v.elt, ast.Tuple) and len(v.elt.elts) == 2 else v.elt
+                    elif isinstance(v, ast.Call) and call_name(v) in ("dict", "list", "tuple") and v.args:
+                        payload = v.args[0]
+                    else:
+                        payload = v
+                    if payload is not None and is_num_expr(payload, nums):
+                        nums.add(n.targets[0].id)
+                        changed = True
+        if not nums:
+            continue
+        for c in ast.walk(f.node):
+            if not isinstance(c, ast.Call):
+                continue
+            nm = call_name(c)
+            sinks = []
+            if nm == "reduce" and isinstance(c.func, ast.Attribute) and c.args and isinstance(c.args[0], (ast.List, ast.Tuple)):
+                for el in c.args[0].elts:
+                    if isinstance(el, ast.Tuple) and len(el.elts) == 2:
+                        sinks.append(el.elts[1])
+            if nm in ("query", "map_query", "max_marginal") and isinstance(c.func, ast.Attribute):
+                ev = kwarg(c, "evidence") or (c.args[1] if len(c.args) > 1 else None)
+                if ev is not None:
+                    sinks.append(ev)
+            for sk in sinks:
+                n_sink += 1
+                if is_num_expr(sk, nums) and not any(isinstance(x, ast.Call) and call_name(x) in ("get_state_names",) for x in ast.walk(sk)):
+                    rc.fail(f, c, f"{f.qual}: `{norm(sk, 60)}` is already a state NUMBER (it comes from name_to_no / get_state_no) but `{nm}` takes state NAMES and translates them "
+                            "again: with integer state names that differ from their positions the evidence is applied to another state", construct=f"{f.qual} state number passed as name to {nm}")
+    rc.ob(f"state-domain typing: {n_fn} function(s) scanned, {n_sink} name-taking sink(s) in functions that also hold translated state numbers")
